@@ -301,7 +301,10 @@ class Optimizer:
         # See PR #706: More robust covariance matrix calculation
         _, jacobian_sv, jacobian_rsv = np.linalg.svd(jacobian, full_matrices=False)
         jacobian_sv_square = jacobian_sv**2
-        mask = jacobian_sv_square > np.finfo(float).eps
+        # numerical rank relative to the largest singular value (as numpy.linalg.matrix_rank and
+        # scipy.optimize.curve_fit do), so that rescaling the data does not change which directions count
+        threshold = np.finfo(float).eps * max(jacobian.shape) * jacobian_sv.max(initial=0.0)
+        mask = jacobian_sv > threshold
         covariance_matrix = (jacobian_rsv[mask].T / jacobian_sv_square[mask]) @ jacobian_rsv[mask]
         standard_errors = root_mean_square_error * np.sqrt(np.diag(covariance_matrix))
         for label, error in zip(self._free_parameter_labels, standard_errors):
